@@ -49,7 +49,7 @@ pub fn worker_main(def: &PropDef, tier: Tier, seed: u64, start: u64, stride: u64
 
 enum Msg {
     Delta(Delta),
-    Crash { k: u64, stderr: String, code: Option<i32> },
+    Crash { k: u64, stderr: String, code: Option<i32>, context: Option<Value> },
     Watchdog { k: u64 },
     Done,
 }
@@ -83,6 +83,7 @@ fn run_shard(
             .env("RUST_BACKTRACE", "0")
             .spawn()
             .expect("spawn worker");
+        let child_pid = child.id();
         let stdout = child.stdout.take().unwrap();
         let mut stderr = child.stderr.take().unwrap();
         // stderr collector (bounded)
@@ -148,6 +149,7 @@ fn run_shard(
             }
         }
         let status = child.wait().ok();
+        let context = crate::take_context(child_pid);
         let _ = reader.join();
         let stderr_text = err_handle.join().unwrap_or_default();
         let finished_all = match last_done {
@@ -179,6 +181,7 @@ fn run_shard(
                 k,
                 stderr: stderr_text,
                 code: status.and_then(|s| s.code()),
+                context,
             });
         }
         next = k + stride;
@@ -312,7 +315,7 @@ pub fn run_check(def: &'static PropDef, tier: Tier, seed: u64) -> RunOutcome {
                     }
                 }
             }
-            Ok(Msg::Crash { k, stderr, code }) => {
+            Ok(Msg::Crash { k, stderr, code, context }) => {
                 crashes += 1;
                 merged.evaluations += 1;
                 let (sig, what) = match parse_panic(&stderr) {
@@ -336,7 +339,7 @@ pub fn run_check(def: &'static PropDef, tier: Tier, seed: u64) -> RunOutcome {
                 merged.violations.push(Violation {
                     signature: sig,
                     what,
-                    witness: json!({"scenario": k, "exit_code": code, "stderr_head": tail}),
+                    witness: json!({"scenario": k, "exit_code": code, "stderr_head": tail, "what_the_worker_was_running": context}),
                 });
             }
             Ok(Msg::Watchdog { k }) => {
